@@ -2189,6 +2189,145 @@ def r1120(P, u, rep):
     rep.ob('R11.20', '%s:convert_pp_int:largest-representable-accepted-silently' % TU, ok, msg, where=wi)
 
 
+# ============================================================================ R11.21 ===
+# C11 6.4.4.1p5 gives every integer constant the first type of its list that holds its value; 6.10.1p4 keeps that rule inside #if with one
+# change: "all signed integer types and all unsigned integer types act as if they have the same representation as, respectively, intmax_t
+# and uintmax_t".  The list of a constant then has one signed and one unsigned entry: a constant is unsigned in a controlling expression iff
+# it has a u suffix, or is not decimal and does not fit intmax_t (decimal constants from 2^63 without u have no type: R11.20).  What the
+# constant folder of #if sees is decided by C10 R10.13 (eval_const_expr interpreted up to the call of const_expr, the types of the number
+# tokens read off there); that rule function is run here on the whole grid base x suffix class x magnitude class of R11.1, each probe
+# carrying the C type the ladder gives it outside #if.
+def _if_grid():
+    """[(class name, 'number', global of the C type, (spellings), (size, unsigned) wanted in #if)]"""
+    gname = {INT: 'ty_int', UINT: 'ty_uint', LONG: 'ty_long', ULONG: 'ty_ulong'}
+    vals = (0x7fffffff, 0xffffffff, 0x7fffffffffffffff, 0xffffffffffffffff)      # the largest value of each magnitude class
+    lows = (1, 0x80000000, 0x100000000, 0x8000000000000000)                        # and the smallest (1 for the first: 0 would be octal)
+    out = []
+    for bname, fmt, decimal in (('decimal', '%d', True), ('hex', '0x%X', False), ('octal', '0%o', False), ('binary', '0b%s', False)):
+        for sname, sufs, l, uu in (('nosuffix', ('',), 0, 0), ('u', ('u', 'U'), 0, 1), ('l', ('l', 'LL'), 1, 0), ('ul', ('ul', 'LLU'), 1, 1)):
+            for m, (mname, _lo, _hi) in enumerate(MAGS):
+                cty = ladder_oracle(decimal, l, uu, m)
+                if cty is None:
+                    continue        # no type: diagnosed (R11.20)
+                want = (8, 1) if (uu or (not decimal and m == 3)) else (8, 0)
+                sp = []
+                for v, suf in zip((vals[m], lows[m]), (sufs[0], sufs[-1])):
+                    digits = bin(v)[2:] if fmt == '0b%s' else None
+                    sp.append((fmt % (digits if digits is not None else v)) + suf)
+                out.append(('%s-%s-%s' % (bname, sname, mname.replace('^', 'p').replace('..', '-to-').replace('<', 'below-').replace('>=', 'from-')), 'number', gname[cty], tuple(sp), want))
+    return out
+
+
+def r1121(P, rep):
+    from ..report import Report, reissue
+    from . import c10
+    rep.rule('R11.21', 'an integer constant in a controlling expression of #if/#elif has the type of the C11 6.4.4.1p5 ladder with every signed type read as intmax_t and every unsigned type as '
+             'uintmax_t (6.10.1p4): for every base x suffix class x magnitude class it reaches the constant folder with an 8-byte type that is unsigned iff the constant has a u suffix or is '
+             'a hexadecimal/octal/binary constant of 2^63 and above; the value of a literal in #if is then the value it has in the program text (C10 R10.13 on the grid of R11.1)', floor=40)
+    pu = P.unit(PU)
+    if 'eval_const_expr' not in pu.functions:
+        raise AnalysisBroken('anchor eval_const_expr vanished')
+    for need in ('register_nested_enums', 'Toks', '_IF_OPERAND_CLASSES', 'r1013_if_operand_types'):
+        if not hasattr(c10, need):
+            raise AnalysisBroken('C10 does not provide %s any more' % need)
+    c10.register_nested_enums(pu)
+    T = c10.Toks(pu)
+    sub = Report('C10')
+    saved = c10._IF_OPERAND_CLASSES
+    grid = _if_grid()
+    try:
+        c10._IF_OPERAND_CLASSES = tuple(grid) + tuple(c for c in saved if c[1] == 'charconst')
+        c10.r1013_if_operand_types(P, pu, T, sub)
+    except AnalysisBroken:
+        raise
+    except Exception as e:      # another module's rule failing must not take this module's other verdicts with it
+        raise AnalysisBroken('C10 R10.13 could not be evaluated: %r' % (e,))
+    finally:
+        c10._IF_OPERAND_CLASSES = saved
+    n = reissue(rep, 'R11.21', sub, 'the same spelling would then have another type, and with it another value in sign-sensitive operations (< > >> / %), in #if than in the program text: ',
+                keep=lambda o: o['key'].startswith('R10.13:'), prefix_rule=False)
+    if n < len(grid):
+        rep.undecided('R11.21', '%s:eval_const_expr:if-operand/grid' % PU, 'C10 R10.13 issued %d obligations for a grid of %d classes of integer constants' % (n, len(grid)))
+
+
+# ============================================================================ R11.22 ===
+# The value and the verdict (accepted / "too large") of a constant are functions of its spelling (C11 6.4.4.1, 6.4.4.2).  The conversion
+# functions of the library report a range error only through errno and never clear it (ISO C 7.22.1.3p10, 7.22.1.4p8, 7.5p3): a reader that
+# tests errno after a conversion without having set it to zero directly before that conversion reads what an EARLIER call left there, for
+# instance the ERANGE of a valid subnormal floating constant (1e-42f) a few tokens before.  Two halves:
+#  (a) flow (lib_c11errno): in every function of every unit, a read of errno that on every path follows a conversion (strto*, wcsto*) with
+#      no other library call in between must on every path have `errno = 0` before that conversion with no library call in between;
+#  (b) run: convert_pp_number on representable integer and floating constants, started with ERANGE (and EINVAL) in errno, must yield the
+#      token (kind, type, value) and the silence of the run started with errno 0.
+def r1122(P, u, rep):
+    from .. import lib_c11errno as EN
+    rep.rule('R11.22', 'the verdict on a constant depends on its spelling only, not on what an earlier library call left in errno: every read of errno that follows a numeric conversion '
+             '(strtoul, strtod ...) is preceded on every path by `errno = 0` directly before that conversion (no call that may set errno in between; ISO C 7.5p3, 7.22.1.4p8), in every '
+             'function of every unit; and convert_pp_number started with a stale ERANGE/EINVAL in errno yields the same token, silently, as started with 0', floor=3)
+    found, nconv, prog = EN.analyse(P)
+    if nconv == 0:
+        rep.undecided('R11.22', '%s:convert_pp_int:errno-after-conversion' % TU, 'no call of a numeric conversion function (strtoul, strtod ...) was found in any unit')
+    for (un, fn, convs), (verdict, root, line, st) in sorted(found.items()):
+        key = '%s:%s:errno-after-%s' % (un, fn, convs)
+        where = '%s:%d' % (un, line)
+        if verdict == 'unknown':
+            rep.undecided('R11.22', key, 'errno is read after %s(), but whether it was reset before the conversion could not be followed (seen from %s)' % (convs, root), where=where)
+            continue
+        rep.ob('R11.22', key + ('/reset-directly-before-conversion' if verdict == 'ok' else '/no-reset-before-conversion'), verdict == 'ok',
+               '%s() reads errno after %s(), but on a path to that conversion (entered through %s) errno was not set to 0 after the last call that may have set it: %s() never clears errno, so '
+               'an ERANGE left by an earlier conversion (a valid subnormal or overflowing floating constant such as 1e-42f, an earlier out-of-range constant) is taken for a range error of '
+               'THIS constant: the verdict on a literal then depends on the literals before it' % (fn, convs, root, convs), where=where, facts={'state': st})
+    # (b)
+    printers = _diagnostic_printers(P)
+    cfg = {'opaque': list(printers) + list(STREAM_WRITERS) + ['verror_at']}
+    tk_pp = u.enums.get('TK_PP_NUM', 0)
+    wi = _where(u, 'convert_pp_number')
+
+    def conv(text, errno0):
+        it = L.CInterp(P, u, dict(cfg, models=L.make_models(errno0=errno0)))
+        box = {}
+
+        def mk(ctx):
+            t = Obj('Token', lazy=False, label='tok')
+            t.fields['loc'] = L.cstring(text + ' ;')
+            t.fields['len'] = len(text)
+            t.fields['kind'] = tk_pp
+            t.fields['line_no'] = 1
+            f = Obj('File', lazy=False)
+            f.fields['name'] = 'x.c'
+            f.fields['contents'] = t.fields['loc']
+            t.fields['file'] = f
+            box['t'] = t
+            return [t]
+        ctx, out = L.run1(it, 'convert_pp_number', mk)
+        t = box['t']
+        fv = t.fields.get('fval')
+        return (out[0], bool(_diagnosed(ctx, out, printers)), t.fields.get('kind'), L.type_sig(it, t.fields.get('ty', 0)),
+                t.fields.get('val') if isinstance(t.fields.get('val'), int) else repr(t.fields.get('val')), fval_sig(fv) if fv is not None else None)
+    samples = (('integer', ('1', '0', '42u', '0x7fffffff', '017', '0b101', '2147483648', '0xFFFFFFFFFFFFFFFF', '18446744073709551615u', '9223372036854775807', '1ull')),
+               # the last four are subnormal / out of the range of their type: whether those are diagnosed is not this rule's subject
+               ('floating', ('1.0', '.5f', '1e10', '0x1p-3', '99999999999999999999.0', '18446744073709551616e0', '99999999999999999999.5f', '1.5L',
+                             '1e-42f', '1e39f', '4.9406564584124654e-324', '1e-4940L')))
+    for cls, texts in samples:
+        ok, msg = True, ''
+        for i, text in enumerate(texts):
+            base = conv(text, 0)
+            if base[0] != 'ret' or base[1]:
+                if cls == 'integer' or i < 8:
+                    if ok:
+                        ok, msg = False, ('the %s constant %s (in the range of its type) is %s although errno was 0 when its conversion began: a range error of the integer reading of its '
+                                          'digits is taken for one of the constant' % (cls, text, 'rejected' if base[0] != 'ret' else 'diagnosed'))
+                continue
+            for e0, en in ((L.ERANGE, 'ERANGE'), (22, 'EINVAL')):
+                got = conv(text, e0)
+                if got != base and ok:
+                    ok = False
+                    msg = ('the %s constant %s, read while errno still holds %s from an earlier library call, %s; with errno 0 it is accepted silently as %s: the verdict on a constant depends '
+                           'on what was converted before it (a valid floating constant such as 1e-42f leaves ERANGE behind)' % (
+                               cls, text, en, 'is rejected' if got[0] != 'ret' else ('is diagnosed' if got[1] else 'becomes %r' % (got[2:],)), '%r' % (base[3:],)))
+        rep.ob('R11.22', '%s:convert_pp_number:verdict-independent-of-errno-at-entry/%s' % (TU, cls), ok, msg, where=wi)
+
+
 def run(P, rep, tier):
     u = P.unit(TU)
     rep.explanation = ('The literal readers of tokenize.c/unicode.c/preprocess.c are interpreted (Engine I) on the spellings of the C11 literal grammar. '
@@ -2213,6 +2352,10 @@ def run(P, rep, tier):
                        'must be those tokenize_file makes of the same line; the \\u/\\U clauses of C10 R10.11 (all texts, symbolically) are re-issued. '
                        'Range (R11.20): escapes above the range of the element type in every kind of literal, integer constants from 2^64 in every base (strtoul modelled with ERANGE), and decimal constants '
                        'without u from 2^63 must end in a diagnostic (error*, or a function of tokenize.c that prints through verror_at and returns); the largest representable spellings must pass silently. '
+                       'Constants in #if (R11.21): C10 R10.13 (eval_const_expr interpreted up to the call of const_expr) is run on the grid base x suffix class x magnitude class of R11.1; each constant must arrive with an '
+                       '8-byte type that is unsigned iff it has a u suffix or is a non-decimal constant from 2^63. '
+                       'errno (R11.22): a flow analysis over the statements of every function of every unit (states of errno: unknown / reset / conversion after reset / conversion without reset; entry state of a function = union over its call sites; '
+                       'functions of the program that touch errno are followed into, other library calls make it unknown) demands `errno = 0` directly before each conversion whose errno is read; convert_pp_number is also run with a stale ERANGE/EINVAL in errno. '
                        'Not decided: strtoul/strtof/strtod/strtold themselves, code points other than the sampled ones, universal character names that 6.4.3p2 forbids.')
     rep.assumptions += ['libc functions behave as ISO C 7.4/7.22/7.24 specify (python models)', 'x86-64: char is signed, LP64',
                         'UTF-8/UTF-16 oracles are python\'s codecs (RFC 3629 / RFC 2781)',
@@ -2222,7 +2365,7 @@ def run(P, rep, tier):
                     ('R11.5', lambda: r115(P, u, rep)), ('R11.6', lambda: r116(P, u, rep)), ('R11.7', lambda: r117(P, u, rep)),
                     ('R11.8', lambda: r118(P, u, rep)), ('R11.9', lambda: r119(P, u, rep)), ('R11.10', lambda: r1110(P, u, rep)), ('R11.11', lambda: r1111(P, rep)), ('R11.12', lambda: r1112(P, u, rep)),
                     ('R11.13', lambda: r1113(P, u, rep)), ('R11.14', lambda: r1114(P, u, rep)), ('R11.15', lambda: r1115(P, u, rep)), ('R11.16', lambda: r1116(P, u, rep)),
-                    ('R11.17', lambda: r1117(P, u, rep)), ('R11.18', lambda: r1118(P, rep)), ('R11.19', lambda: r1119(P, u, rep)), ('R11.20', lambda: r1120(P, u, rep))):
+                    ('R11.17', lambda: r1117(P, u, rep)), ('R11.18', lambda: r1118(P, rep)), ('R11.19', lambda: r1119(P, u, rep)), ('R11.20', lambda: r1120(P, u, rep)), ('R11.21', lambda: r1121(P, rep)), ('R11.22', lambda: r1122(P, u, rep))):
         try:
             f()
         except AnalysisBroken as e:
